@@ -102,10 +102,11 @@ def handle : DrvHandler := fun op args =>
         ("res", resJson (firstStartN cfg (pviewOf obs) fuel spawn)),
         ("wake", wakeJson (.at (initialWake cfg spawn))),
         ("top", stateJson HState.fresh.atTop)]))
-  | "C10.reset", [lh, e] => do
+  | "C10.reset", [lh, seen, e] => do
       let lh ← jOpt? jNat? lh
+      let seen ← jOpt? jNat? seen
       let e ← jNat? e
-      some (ok (.bool (resetsIdle lh e)))
+      some (ok (.bool (resetsIdle lh seen e)))
   | "C10.view", [cj, ej, tj] => do
       -- `idle_reset_time` derived from the event history, read at the given instants
       let created ← jInt? cj
